@@ -87,8 +87,21 @@ pub fn produce(stream: &[Ev], o: &Opts) -> Reports {
     });
     let junit = guarded(|| {
         let sink = Sink::default();
-        let mut w = writer::Normalize::<W, _>::new(writer::JUnit::<W, _>::raw(sink.clone(), if o.junit_verbose { Verbosity::ShowWorld } else { Verbosity::Default }));
-        let cli = writer::junit::Cli { verbose: None };
+        // Level: default, World, or (constructor only; `--junit-v` stops at the World) World and doc
+        // strings. Half of the cases (chosen by an option JUnit ignores) set the level through the
+        // CLI (`--junit-v 0|1`) over a constructor that says the opposite, the others through the
+        // constructor with no CLI value.
+        let level = match (o.junit_verbose, o.verbosity) {
+            (false, _) => Verbosity::Default,
+            (true, 2) if !o.report_time => Verbosity::ShowWorldAndDocString,
+            (true, _) => Verbosity::ShowWorld,
+        };
+        let (ctor, cli) = if o.report_time {
+            (if o.junit_verbose { Verbosity::Default } else { Verbosity::ShowWorldAndDocString }, writer::junit::Cli { verbose: Some(u8::from(o.junit_verbose)) })
+        } else {
+            (level, writer::junit::Cli { verbose: None })
+        };
+        let mut w = writer::Normalize::<W, _>::new(writer::JUnit::<W, _>::raw(sink.clone(), ctor));
         for e in stream {
             block_on(w.handle_event(e.clone(), &cli));
         }
